@@ -123,6 +123,58 @@ CLAIMED = {
         "technique": "unit (char vs byte) taint analysis of str slice indices on HIR, interprocedural through tuple returns and callers",
         "level": P + "No str/String range slice in the LSP crate is indexed by a character-counted value (Position.character, .chars().count(), per-char loop counters, pest columns). Other panics and range validity are not decided.",
     },
+    "C09": {
+        "technique": "sibling arm-table agreement (R-ARMS) of the two filter evaluators on HIR; three-valued connective semantics extracted from the code and compared by exhaustive enumeration of small formulas",
+        "level": P + "For every comparison operator the (left type, literal type) rows giving a definite answer, and the operation used per row, agree between the VPL evaluator and the SASE predicate evaluator; natively translated not/and/or agree on absent operands for all formulas of depth <= 2. Disagreements are reported per row / connective.",
+    },
+    "C10": {
+        "technique": "match-arm table of the folder on HIR (R-ARMS): literal-pattern completeness of rewriting arms and operator-family agreement with the evaluator's arm table",
+        "level": P + "Every folding arm that rewrites must constrain both operands to literals (else it is reported per arm), and every literal x literal arm computes with the evaluator's own operation for that (operator, types) row. Float result equality is not decided.",
+    },
+    "C18": {
+        "technique": "stateless-classification soundness over the field access index and call graph; provenance of the hashed value at every bucket computation in the CLI's MIR (R-KEYED / R-DET)",
+        "level": P + "No RuntimeOp accepted by is_stateless carries a payload written on the processing path and every mutated StreamDefinition state field is tested; each bucket index in run_simulation hashes Value::to_partition_key of the key field with a fixed-key hasher and does not depend on the event when the key is missing. Scheduling and the output multiset are not decided.",
+    },
+    "C26": {
+        "technique": "result-consumption analysis (R-LOSSY) of every non-blocking send on the cross-context data path on MIR",
+        "level": "One clause only: every try_send of an event on the context data path must propagate or re-queue the rejected message; sends whose result is dropped or only logged lose the event when a bounded channel is full. Ordering and equality of outputs are not decided.",
+    },
+    "C27": {
+        "technique": "guard dominance on MIR of the checkpoint coordinator; marker-rule reachability (barrier forwarded / channel drained) over the call graph",
+        "level": P + "Acks are stored only under the checkpoint-id match, the checkpoint is assembled only under acks.len() == context_names.len(), one round at a time; whether the barrier handler accounts for in-flight cross-context events (forwarded marker or drained channel) is reported.",
+    },
+    "C32": {
+        "technique": "commit-site re-validation (guard dominance) and paired-write analysis on MIR of the coordinator's commit functions",
+        "level": P + "Placements are written only for workers still registered at commit time, a migration commit re-validates the placement it replaces, and assigned_pipelines / pipelines_running change together. The interleavings themselves are not decided.",
+    },
+    "C36": {
+        "technique": "durable-key agreement between writers and recovery (R-KEYS), write ordering and dropped-error scan on MIR (cfg persistent)",
+        "level": P + "Every durable key written by the state machine store is read by recovery (or recovery is reported as unable to rebuild after compaction), snapshot data is written before the applied position, storage errors are not dropped.",
+    },
+    "C37": {
+        "technique": "error-path analysis (R-LOSSY / R-ORDER) of the replication result in the API handlers on MIR (cfg raft)",
+        "level": "One clause only: a failed raft_replicate never falls through to the success reply of the handler that issued it. Consensus safety is openraft's and is not decided.",
+    },
+    "C38": {
+        "technique": "replication coverage (R-REPL): locally written coordinator components vs ClusterCommand variants issued per entry point, over call graph and field index (cfg raft)",
+        "level": P + "For each coordinator entry point that changes a mirrored component (workers, pipeline groups, placements, migrations, connectors, scaling policy) a command replicating that component is issued on the same entry; gaps are reported per (entry, component).",
+    },
+    "C39": {
+        "technique": "escape-or-validate analysis (R-SANIT) of the connector renderer's format templates and the validator's guards on HIR/MIR",
+        "level": P + "Every parameter value rendered inside a quoted VPL literal is either escaped or restricted by validate_connector to characters a VPL string literal can carry. Numeric-looking values rendered unquoted are not decided.",
+    },
+    "C41": {
+        "technique": "panic containment (spawn/join shape, who-may-call), must-precede of the nesting check, loop-bound guards on MIR",
+        "level": P + "parse() runs parse_inner on a joined thread and maps a panic to Err, nothing else calls parse_inner, no profile sets panic=abort; the nesting-depth check dominates the PEG parse and sees expanded text; expansion is bounded by MAX_LOOP_ITERATIONS / MAX_EXPANSION_PASSES. Error positions are not decided.",
+    },
+    "C44": {
+        "technique": "arm tables of the four JSON<->Value converters and their composition on HIR (R-ARMS)",
+        "level": P + "Kind mapping of json_to_runtime_value / json_to_value_bounded / value_to_json and their agreement per JSON kind; which numeric representations the Number arms distinguish is reported.",
+    },
+    "C45": {
+        "technique": "must-end-in(delivery | DLQ) on the async send bodies (R-ORDER), breaker transition table and guards (R-FSM) on MIR",
+        "level": P + "Every send ends in delivery or a DLQ write; the circuit breaker's transitions and guards match the contract table; half-open admits a single probe.",
+    },
     "C46": {
         "technique": "decision-list extraction and agreement (R-DLIST) on HIR",
         "level": P + "For every line prefix class the preload and the streaming reader agree on skip vs event and delegate to the same leaf parsers. Values inside the shared leaf parsers are not decided.",
